@@ -292,6 +292,15 @@ enum ConfirmAction {
     ContinueWait,
 }
 
+/// how the response recorded for a request handled from idle goes out
+#[derive(Copy, Clone, PartialEq)]
+enum ResponseType {
+    /// a new response: the current IIN bits (and a broadcast-forced CON) are merged into it
+    New,
+    /// the stored response of a repeated non-READ request: sent again exactly as it was
+    Echo,
+}
+
 #[derive(Copy, Clone)]
 enum NextIdleAction {
     NoSleep,
@@ -970,20 +979,26 @@ impl OutstationSession {
         match guard.get() {
             Some(TransportRequest::Request(info, request)) => {
                 self.on_link_activity();
-                if let Some(mut result) = self
+                if let Some((mut result, response_type)) = self
                     .process_request_from_idle(info, request, database)
                     .await
                 {
                     // optional response
                     if let Some(response) = &mut result.response {
-                        *response = self
-                            .write_solicited(io, writer, info.addr, *response, database)
-                            .await?;
+                        if response_type == ResponseType::Echo {
+                            // the octets of the original response, whatever the IIN is by now
+                            self.repeat_solicited(io, info.addr, writer, *response)
+                                .await?;
+                        } else {
+                            *response = self
+                                .write_solicited(io, writer, info.addr, *response, database)
+                                .await?;
 
-                        // check if an extra confirmation was added due to broadcast
-                        if response.header.control.con && result.series.is_none() {
-                            result.series =
-                                Some(ResponseSeries::new(response.header.control.seq, true));
+                            // check if an extra confirmation was added due to broadcast
+                            if response.header.control.con && result.series.is_none() {
+                                result.series =
+                                    Some(ResponseSeries::new(response.header.control.seq, true));
+                            }
                         }
                     }
 
@@ -1021,12 +1036,12 @@ impl OutstationSession {
         info: FragmentInfo,
         request: Request<'_>,
         database: &mut DatabaseHandle,
-    ) -> Option<LastValidRequest> {
+    ) -> Option<(LastValidRequest, ResponseType)> {
         self.info.process_request_from_idle(request.header);
 
         let seq = request.header.control.seq;
 
-        match self.classify(info, request) {
+        let result = match self.classify(info, request) {
             FragmentType::MalformedRequest(hash, err) => {
                 let response = Response::empty_solicited(seq, Iin::default() | Iin2::from(err));
                 Some(LastValidRequest::new(seq, hash, Some(response), None))
@@ -1057,8 +1072,13 @@ impl OutstationSession {
                     }
                 }
 
-                // per the spec, we just echo the last response
-                Some(LastValidRequest::new(seq, hash, last_response, None))
+                // per the spec, we just echo the last response: the record of the request stays as
+                // it is, including the confirm wait that its response opened (broadcast-forced CON)
+                let series = self.state.last_valid_request.and_then(|x| x.series);
+                return Some((
+                    LastValidRequest::new(seq, hash, last_response, series),
+                    ResponseType::Echo,
+                ));
             }
             FragmentType::Broadcast(mode) => {
                 self.process_broadcast(info.id, database, mode, request)
@@ -1079,7 +1099,9 @@ impl OutstationSession {
                 );
                 None
             }
-        }
+        };
+
+        result.map(|x| (x, ResponseType::New))
     }
 
     async fn write_error_response(
